@@ -6,7 +6,7 @@ from mkprops import write
 IMP = """From Coq Require Import List Arith Bool NArith.
 From FFSM2 Require Import Model.TaskList Model.BitArray Model.BitStream Model.Plan Model.Ancestors Model.Machine
   Proofs.BitArrayProofs Proofs.TaskListProofs Proofs.TaskListRun Proofs.PlanProofs Proofs.MachineFrame Proofs.MachinePlan Proofs.MachineLife Proofs.GuardProofs Proofs.CycleProofs Proofs.PlanStep
-  Proofs.SerialProofs Proofs.LogProofs Proofs.MachineTop Model.Multi Generated.InitFacts Proofs.ConstructProofs Proofs.LifeMonitor Proofs.ActivationRounds Proofs.IndexSafety Proofs.FeatureProofs Model.Script Proofs.Contract Proofs.Histories Proofs.StatusBits Proofs.Worlds Model.Cxx Generated.LeafCode Proofs.LeafTactics Proofs.LeafConsts Proofs.LeafCodeTaskList.
+  Proofs.SerialProofs Proofs.LogProofs Proofs.MachineTop Model.Multi Generated.InitFacts Proofs.ConstructProofs Proofs.LifeMonitor Proofs.ActivationRounds Proofs.IndexSafety Proofs.FeatureProofs Model.Script Proofs.Contract Proofs.Histories Proofs.StatusBits Proofs.Worlds Model.Cxx Generated.LeafCode Proofs.LeafTactics Proofs.LeafConsts Proofs.LeafCodeTaskList Proofs.LeafCodeStream Proofs.LeafCodeWide.
 Import ListNotations."""
 
 VOC = ("Vocabulary: Ready cfg s a = the machine is at a point where requests are processed (or between API calls) with state a < n active, "
@@ -280,6 +280,18 @@ SPECS["C10"][1].extend([
    ("C10_source_emplace_is_the_model", "src_TaskList_emplace_FL", _TLT % ("emplace(origin, destination)", "emplace")),
    ("C10_source_remove_is_the_model", "src_TaskList_remove_FL", _TLT % ("remove(i)", "remove")),
    ("C10_source_clear_is_the_model", "src_TaskList_clear", "... and clear() resets exactly the four indices"),
+])
+
+_NF = ("index safety of the code itself (DESIGN.md 4.7): the interpreter of Model/Cxx.v returns a fault for an element access outside its array, a shift by a negative amount or by at least the width, "
+       "a signed result outside its type and a division by zero; this theorem says the body of %s, as translated from clang's typed AST of /repo's current source on every run, returns a result - no fault - "
+       "for every argument the library's own assertions admit (and computes the model's function)")
+SPECS["C18"][1].extend([
+   ("C18_source_write_never_faults", "src_write8", _NF % "BitWriteStreamT<>::write<W>(), W <= 8"),
+   ("C18_source_write32_never_faults", "src_write32", _NF % "BitWriteStreamT<>::write<W>(), W <= 32 (the item is shifted at unsigned int and may wrap, which is defined)"),
+   ("C18_source_read_never_faults", "src_read8", _NF % "BitReadStreamT<>::read<W>(), W <= 8"),
+   ("C18_source_read32_never_faults", "src_read32", _NF % "BitReadStreamT<>::read<W>(), W <= 32"),
+   ("C18_source_tasklist_emplace_never_faults", "src_TaskList_emplace_FL", _NF % "TaskListT<void, N>::emplace() on every list satisfying the free-list invariant"),
+   ("C18_source_tasklist_remove_never_faults", "src_TaskList_remove_FL", _NF % "TaskListT<void, N>::remove() on every list satisfying the free-list invariant"),
 ])
 
 _EPS = "over whole histories: every update(), react(), immediateChangeTo() and immediateChangeWith() of every in-contract history processes requests exactly once, from a Ready state reached by callbacks that applied no transition - so every statement of this file made for process_request on a Ready state holds for every processing step of every history"
